@@ -247,7 +247,7 @@ def op_delete(ex, st, fr, ins, name, argv):
             st.ub.append(('delete of a pointer not obtained from new', r.name))
         elif not r.alive:
             st.ub.append(('double delete', r.name))
-        r.alive = False
+        st.wreg(p.region).alive = False
     return None
 
 
